@@ -3,7 +3,7 @@ E4 monitor at the deallocator (link-time --wrap of free/realloc): at the moment 
 it.  For every secret-taking high-level call of the corpora x every exit (success, authentication failure, each
 allocation-fault index): no released block may contain an 8-octet window of the caller's secret, of its expanded
 form (belt key schedule, HMAC ipad/opad blocks, hashed long key) or of the secret output."""
-import ctypes, json, os, subprocess, sys, tempfile, struct
+import ctypes, json, os, subprocess, sys, tempfile, struct, pickle
 import vf, cat, cat_belt, common, corpora
 import C07, C09
 
@@ -78,7 +78,91 @@ def run_monitored(item):
         r2, b2, s2 = once(i)
         nblocks += len(b2)
         scan(b2, 'allocation %d/%d failed (ret=%#x)' % (i, st[0], r2['ret']))
-    return found[:3], nblocks, st[0] + 1, len(nd)
+    # oracle 2 (the statement literally): what is released must not depend on the secret.  Two executions forked from
+    # the same process state (same addresses, same memWipe counter) that differ only in the secret inputs: every octet
+    # of a released block that differs is secret-derived; unless it is part of the call's public output it is a violation.
+    ndiff = 0
+    if res['ret'] == 0:
+        case2 = perturbed(fname, case)
+        if case2 is not None:
+            a = forked(lambda: once2(L, fname, case, snap, stats)); b = forked(lambda: once2(L, fname, case2, snap, stats))
+            if a and b and a[0]['ret'] == b[0]['ret'] == 0 and [len(x) for x in a[1]] == [len(x) for x in b[1]]:
+                ndiff = 1
+                pub = b''.join(v for v in a[0].values() if isinstance(v, bytes)) + b''.join(v for k, v in case.items() if isinstance(v, (bytes, bytearray)) and k not in cat.CAT[fname].secrets)
+                for bi, (x, y) in enumerate(zip(a[1], b[1])):
+                    if x == y:
+                        continue
+                    d = [i for i in range(len(x)) if x[i] != y[i]]
+                    lo, hi = d[0], d[-1] + 1
+                    # a window of the differing region that is not public output
+                    secretish = None
+                    for i in range(max(0, lo - 7), min(hi, len(x) - 7)):
+                        w = x[i:i + 8]
+                        if any(lo <= j < hi for j in range(i, i + 8)) and w not in pub:
+                            secretish = i; break
+                    if secretish is None and hi - lo < 8:
+                        secretish = lo if x[lo:hi] not in pub else None
+                    if secretish is not None:
+                        found.append('success exit: released block %d (%d octets) differs between two runs that differ only in %s: %d secret-dependent octet(s) in [%d,%d) that are not part of the output (e.g. offset %d: %s)'
+                                     % (bi, len(x), '/'.join(cat.CAT[fname].secrets), len(d), lo, hi, secretish, x[secretish:secretish + 8].hex()))
+                        break
+    return found[:3], nblocks, st[0] + 1 + 2 * ndiff, len(nd)
+
+_arena = None
+def once2(L, fname, case, snap, stats):
+    """one monitored execution whose library allocations are served from a private bump arena (identical addresses in
+    every execution forked from the same parent; memWipe's pattern depends on addresses)"""
+    global _arena
+    if _arena is None:
+        _arena = (ctypes.c_ubyte * (1 << 20))()
+    L.dll.vh_mon_arena(_arena, ctypes.c_size_t(1 << 20))
+    L.dll.vh_mon_start(ctypes.c_long(0), snap, ctypes.c_size_t(SNAP))
+    try:
+        res = common.run_fn(L, fname, case, fill=0x00)
+    finally:
+        L.dll.vh_mon_stop(stats); L.dll.vh_mon_reap(); L.dll.vh_mon_arena(None, ctypes.c_size_t(0))
+    raw = bytes(snap[:stats[4]]); blocks = []; off = 0
+    while off < len(raw):
+        n = struct.unpack_from('<Q', raw, off)[0]; blocks.append(raw[off + 8:off + 8 + n]); off += 8 + n
+    return res, blocks
+
+def perturbed(fname, case):
+    """the same case with every secret input replaced by another value of the same length (the top octet is kept so that
+    range-checked private keys stay in range); None if there is nothing to perturb"""
+    fn = cat.CAT[fname]
+    c2 = dict(case); ch = False
+    for name in fn.secrets:
+        v = case.get(name)
+        if isinstance(v, (bytes, bytearray)) and len(v) >= 8:
+            m = bytearray(v)
+            for i in range(len(m) - 1):
+                m[i] ^= 0x5A
+            if hasattr(fn, 'fix_secret'):
+                m = bytearray(fn.fix_secret(name, bytes(m), case))
+            c2[name] = bytes(m); ch = True
+    return c2 if ch else None
+
+def forked(f):
+    """run f() in a forked child (so both differential runs start from the same process state); -> result or None"""
+    r, w = os.pipe()
+    pid = os.fork()
+    if pid == 0:
+        os.close(r)
+        try:
+            data = pickle.dumps(f())
+        except BaseException:
+            data = pickle.dumps(None)
+        with os.fdopen(w, 'wb') as o:
+            o.write(data)
+        os._exit(0)
+    os.close(w)
+    with os.fdopen(r, 'rb') as i:
+        data = i.read()
+    os.waitpid(pid, 0)
+    try:
+        return pickle.loads(data)
+    except Exception:
+        return None
 
 def cases_for(tier):
     cs = [c for c in corpora.all_cases('quick') if cat.CAT[c[0]].secrets and cat.CAT[c[0]].ret == 'err'
